@@ -70,14 +70,7 @@ def search(rng, tier, disagreeing):
 
 
 def classify(body, impl, verdict):
-    toks = body.split(" ; ", 1)[1].split(" ")
-    c = next(t for t in toks if t.startswith("B:"))[2:].split(",")
-    if "panicked" in verdict:
-        return "read-dir-failure-panics"
-    snaps = [t for t in impl.split(" ") if t.startswith("s{")]
-    names = [e.split("=")[0] for e in snaps[-1][2:snaps[-1].index("}")].split(",") if e] if snaps else []
-    naming = c[7].split(".")
-    direct_ts = naming[0] == "tsd" or (naming[0] == "cu" and naming[1] == "~")
+    """no recorded finding is left for this property: every failure is reported"""
     return None
 
 
